@@ -20,7 +20,8 @@ import (
 
 func init() {
 	register(&Check{
-		ID: "C18", Level: "exploration", Configs: []string{"clean"},
+		ID:      "C18",
+		Tenants: func(c *core.Ctx, i int) tenant { return tenantTime(c) }, Level: "exploration", Configs: []string{"clean"},
 		Run:         runC18,
 		QuickRuns:   2_000_000,
 		ThoroughSec: 480,
